@@ -327,7 +327,7 @@ func init() {
 		return nil
 	}})
 	hx.Register(&hx.Stream{ID: "C16", Name: "c16.trace", Gen: c16Gen, Eval: c16Eval, Serial: true,
-		Setup: func() error { log.SetOutput(io.Discard); casket.Quiet = true; return nil },
+		Setup:    func() error { log.SetOutput(io.Discard); casket.Quiet = true; return nil },
 		Teardown: func() { log.SetOutput(os.Stderr) }})
 }
 
